@@ -41,6 +41,9 @@ def direct_cases(rng, n_cases):
     return out
 
 
+KEYF = {m: (lambda ex, m=m: ex['v'] % m) for m in (2, 3, 5)}
+
+
 def direct_oracle(c):
     common.gc_point()
     fails = []
@@ -48,7 +51,7 @@ def direct_oracle(c):
     # payloads are dicts: comparing two examples raises TypeError, so any comparison of examples shows
     examples = [{'v': v, 'pos': i} for i, v in enumerate(vals)]
     src = dict(zip(keys, examples)) if c['dict'] else examples
-    keyf = lambda ex: ex['v'] % c['mod']
+    keyf = KEYF[c['mod']]          # the SAME function object for many datasets (sorting must not remember earlier ones)
     with warnings.catch_warnings():
         warnings.simplefilter('ignore')
         ds = lazy_dataset.new(src)
